@@ -8,7 +8,7 @@ HERE = os.path.dirname(os.path.dirname(os.path.abspath(__file__)))
 # pid -> (design_ref, technique, level text, level note)
 CLAIMED = {
     "C20": ("DESIGN.md §5 C20",
-            "Lean 4 theorems (binnify_eq_spec, getBinsize_truthful, getChromsizes_mem) + exhaustive differential correspondence of the Lean definitions with util.binnify/get_binsize/get_chromsizes",
+            "Lean 4 theorems (binnify_eq_spec, getBinsize_truthful, getChromsizes_mem, binnify_roundtrip, binnify_regrid) + exhaustive differential correspondence of the Lean definitions with util.binnify/get_binsize/get_chromsizes over every numeric form of the tables and magnitudes around every machine-integer limit",
             "Proof: binnify's edge construction equals the promised tiling for all size tables and widths; a reported bin size implies every bin is [k*b, min((k+1)*b, L)) on every valid segmentation; reported lengths are ends of last bins. The Lean definitions are executed against the real functions on every segmentation of small genomes.",
             "Trusted: Lean kernel; hand-written model tied by the correspondence harness; pandas groupby/drop_duplicates and float division are primitives."),
     "C03": ("DESIGN.md §5 C03",
@@ -16,11 +16,11 @@ CLAIMED = {
             "Proof: for every row-sorted store with a correct index, every window and every valid row-span choice, the direct engine returns exactly the stored records of the window in storage order and the fill-lower engine returns, without duplicates, exactly the sub-block of the symmetric completion. The Lean spec is compared with the real selectors on every window of [0,n]^4 for small n.",
             "Trusted: Lean kernel; hand-written model of CSRReader/RangeQuery2D tied by correspondence; h5py/numpy/scipy primitives; spans are a free unit checked by contract."),
     "C02": ("DESIGN.md §5 C02",
-            "Lean 4 theorems (rlencodeChunked_eq, indexPixels_spec, writePixels_concat, create_valid) + raw-HDF5 monitor evaluating the Lean schema predicate on every collection written by seeded histories of producing operations",
+            "Lean 4 theorems (rlencodeChunked_eq, indexPixels_spec, writePixels_concat, create_valid, create_ensureSorted_valid, linKey_lt_iff, legacy_levels_ok) + raw-HDF5 monitor evaluating the Lean schema predicate on every collection written by seeded histories of producing operations",
             "Proof: the chunked run-length encoder equals the unchunked one for every block size; offsets built from runs equal the run-length index for every non-decreasing column; a validated chunk stream yields a store satisfying every schema clause. The predicate the theorem concludes is evaluated on raw dumps of all files written by create/unordered/merge/coarsen/zoomify/scool/CLI loaders.",
             "Trusted: Lean kernel; model of rlencode/index_pixels/write_pixels tied by unit correspondences (exhaustive small arrays, all block sizes, >10^6-pixel creation in thorough); h5py raw reads."),
     "C01": ("DESIGN.md §5 C01",
-            "Lean 4 theorems (pixels_roundtrip, matrix_roundtrip_symm/_square, arrayLoader_spec, sortByKey_strict, checkedWrite_exact/_refuses_iff) composing the proved write path (C02) and read path (C03) + differential round trips over input forms, given x stored dtypes, extra columns, HDF5 filter options, metadata documents, sequences of creations in one process and a > 10^6-pixel creation",
+            "Lean 4 theorems (pixels_roundtrip, matrix_roundtrip_symm/_square, arrayLoader_spec, sortByKey_strict, checkedWrite_exact/_refuses_iff, unordered_eq_frame, unordered_roundtrip, specWindow_local, specDense_local) composing the proved write path (C02) and read path (C03) + differential round trips over input forms, given x stored dtypes, extra columns, HDF5 filter options, metadata documents, sequences of creations in one process and a > 10^6-pixel creation",
             "Proof: the stored table is the concatenation of the chunks for every chunking; the full-matrix query of the created store is the stored matrix (square) / exactly the symmetric completion without duplicates (symmetric-upper); the array loader's stream equals the upper triangle for every chunk size; a frame with distinct keys is stored as its strictly sorted permutation; an integer column is stored exactly or the write is refused, and refused exactly when a saturating write would alter a value. Real create_cooler/pixels()/matrix()/info are compared with the Lean definitions.",
             "Trusted: Lean kernel; hand-written model tied by correspondence; HDF5 filters/dtype conversion, pandas sort, simplejson round trip are primitives. Known finding D16 (assembly JSON-decoded) is matched narrowly."),
     "C06": ("DESIGN.md §5 C06",
@@ -28,11 +28,11 @@ CLAIMED = {
             "Proof: one pass or two passes over any valid grouping of the chunks store exactly the per-pixel sum of all records; independent of split, chunk order and pre-sorting. Real create_cooler(ordered=False) and `cooler load` are compared with the Lean aggregate; temp directory observed.",
             "Trusted: Lean kernel; model tied by correspondence; tempfile lifetime observed not proved; linspace edges are a free unit checked by contract."),
     "C07": ("DESIGN.md §5 C07",
-            "Lean 4 theorems (merger_eq_spec and merger_agg_eq_spec for every valid epoch partition and ANY aggregation function, breakpoints_contract, merge_comm, merge_assoc, merge_sum, buffer independence) + exhaustive-mergebuf differential correspondence with merge_coolers, refusal and dtype-limit cases",
+            "Lean 4 theorems (merger_eq_spec and merger_agg_eq_spec for every valid epoch partition and ANY aggregation function, breakpoints_contract, merge_comm, merge_assoc, merge_sum, buffer independence, compat_accepts_iff / merge_refuses / fastpath_sound / uniform_table_unique for the refusal clause) + exhaustive-mergebuf differential correspondence with merge_coolers, refusal and dtype-limit cases",
             "Proof: for strictly sorted inputs and ANY valid partition the streaming k-way merger yields exactly the per-pixel aggregate in storage order; the aggregate is commutative, associative and preserves totals. Real merge_coolers is run for every mergebuf 1..sum(nnz)+1 and input order and compared with Lean mergeSpec; incompatible inputs must be refused; overflowing aggregates must err.",
             "Trusted: Lean kernel; model tied by correspondence; pandas groupby/concat primitives; merge_breakpoints is a free unit checked by contract (and the modelled loop is proved to satisfy it); any aggregation function is covered by merger_agg_eq_spec on integer columns."),
     "C11": ("DESIGN.md §5 C11",
-            "Lean 4 theorems (spans_cover_once, partition_cover_once, marginal_split over any commutative monoid and any permutation of chunk results, balance_data_only) + differential runs of the real split-apply-combine pipeline and balance_cooler under every chunk size and many map implementations",
+            "Lean 4 theorems (spans_cover_once, partition_cover_once, marginal_split over any commutative monoid and any permutation of chunk results, balance_data_only, run_data_only over histories of writes and runs) + differential runs of the real split-apply-combine pipeline and balance_cooler under every chunk size and many map implementations",
             "Proof: the spans the code builds cover every stored pixel exactly once for every chunk size; any additive per-chunk functional folded in any completion order equals its value on the whole table. The real pipeline is run bit-exactly on integer data under sequential, lazy, pool and adversarially permuted maps with a visit log; full balance runs are compared across schedules.",
             "Trusted: Lean kernel; model tied by correspondence; real process scheduling observed for <=4 workers; float non-associativity bounded (1e-9), not modelled."),
     "C19": ("DESIGN.md §5 C19",
@@ -56,7 +56,7 @@ CLAIMED = {
             "Proof: renaming rewrites names in the original order and nothing else (lengths, codes, starts/ends, pixels, indexes, attributes); lookups by the new name return what the old name returned, stale names are not found, successive maps compose; the same object's cache equals a reopened one. Real rename_chroms is observed on the same object, after reopening and on raw datasets.",
             "Trusted: Lean kernel; model tied by correspondence; HDF5 enum header limit is a model parameter (theorems hold for both outcomes)."),
     "C13": ("DESIGN.md §5 C13",
-            "Lean 4 theorems (validate_accepts_iff, validate_rejects, format_last, partial_not_cooler, frame_other_collections, pipeline_dest_untouched by induction over the step list of create()) + exhaustive fault enumeration against the real producers",
+            "Lean 4 theorems (validate_accepts_iff, validate_rejects, format_last, partial_not_cooler, frame_other_collections, pipeline_dest_untouched, bad_metadata_never_completes, bad_opts_dest_untouched by induction over the step list of create()) + exhaustive fault enumeration, crossed with the producers' keyword options, against the real producers",
             "Proof: the validator accepts a chunk iff ids are in range, upper-triangular in symmetric mode and keys distinct; for EVERY strict prefix of create()'s steps the target carries no format attribute (unless it is a root that already was a cooler), so after any fault it is neither recognised nor listed, and in append mode every collection outside the target's footprint is unchanged; faults inside temporary files of merge/coarsen/unordered pipelines leave the destination untouched. Every invalid-record kind at every chunk index and position, and an iterator exception before every chunk, are injected into ordered/unordered creation, merge and coarsen over several destination kinds.",
             "Trusted: Lean kernel; model tied by correspondence (partial file state compared with runUntil k); exceptions leaving create() only - process kill and torn HDF5 writes are outside."),
     "C12": ("DESIGN.md §5 C12",
@@ -64,15 +64,15 @@ CLAIMED = {
             "Proof: for every window, weight vector and raw content each balanced value is the product of exactly the raw value, the row bin's weight and the column bin's weight (reciprocals when divisive; divisive by default exactly for KR/VC/VC_SQRT), the aliasing shortcut equals slicing the column range, a missing column is an error in all forms. The model instantiated at IEEE binary64 is compared bit for bit with Cooler.matrix(balance=...) in dense/sparse/pixel form and with cooler dump -b; a pure re-bracketing of the product is a free choice checked by contract.",
             "Trusted: Lean kernel; Lean Float = IEEE binary64 (checked against numpy on random bit patterns every run); model fed with the raw result of the same query so that range-query bugs are C03's."),
     "C05": ("DESIGN.md §5 C05",
-            "Lean 4 theorems (binAssign_var_correct, binAssign_fixed_correct via C20.getBinsize_truthful, assign_le_of_lex, sanitize_count_once, aggregated_eq_spec, sanitize_reflect_upper, sanitize_order_independent, sanitize_one_based, tabix_correct, groupFirst_perm_groupCells) + exhaustive single-record and seeded multiset correspondence through the API, the text loaders and the tabix loader",
+            "Lean 4 theorems (binAssign_var_correct, binAssign_fixed_correct via C20.getBinsize_truthful, assign_le_of_lex, sanitize_count_once, aggregated_eq_spec, sanitize_reflect_upper, sanitize_order_independent, sanitize_one_based, tabix_correct, groupFirst_perm_groupCells, hiclib_chunks_cover, hiclib_eq_spec, hiclib_chunksize_independent, hiclib_rejects_outside, hiclib_drops_unlisted) + exhaustive single-record and seeded multiset correspondence through the API, the text loaders, the tabix loader and the hiclib HDF5 loader",
             "Proof: for positions inside their chromosome the assigned bin is the bin containing the position (both paths) and lies on that chromosome; the aggregated output holds one unit per retained record at its pixel after orientation, total = number of retained records, independent of record order and of the sort flag of the aggregation (the unsorted grouping stores exactly the same cells, in order of first appearance); one-based input is the zero-based input shifted by one; positions < 0 or > length are rejected. Full rejection at position == length is NOT proved: recorded finding D13 with a machine-checked witness, matched narrowly by Lean's atLength predicate and the variant oracle.",
-            "Trusted: Lean kernel; model tied by correspondence; pandas Categorical/searchsorted and pysam fetch are primitives; HDF5Aggregator/PairixAggregator not modelled."),
+            "Trusted: Lean kernel; model tied by correspondence; pandas Categorical/searchsorted and pysam fetch are primitives; PairixAggregator not modelled (pypairix absent)."),
     "C08": ("DESIGN.md §5 C08",
             "Lean 4 theorems (coarsenBins_spec, cmap_monotone, rebin_correct via C20.getBinsize_truthful, prune_contract, no_group_split, coarsen_eq_spec for ANY contract-satisfying spans, coarsen_total, coarsen_compose, coarsen_merge_commute, coarsen_map_independent) + exhaustive (k, chunksize) differential correspondence with coarsen_cooler",
             "Proof: every new bin is the union of k consecutive old bins of one chromosome (last group shorter), re-binning through the new table equals the block map on fixed and variable tables, span boundaries never split a coarse row, and for any valid spans and any order-preserving map the stream concatenates to groupSum of the relabelled pixels; totals preserved; coarsening composes and commutes with merging. Real coarsen_cooler is run for k=2..n+1 and every chunk size 1..nnz+1 on small coolers, chains and merge/coarsen interleavings.",
             "Trusted: Lean kernel; model tied by correspondence; real process pools observed for <=4 workers; pandas groupby primitives; any aggregation function covered by coarsen_agg_eq_spec on integer columns."),
     "C09": ("DESIGN.md §5 C09",
-            "Lean 4 theorems (multseq_sorted_once, multseq_sound, multseq_refuses_iff(_bases), chain_to_base, zoom_level_eq_direct for ANY valid multiplier sequence via C08.coarsen_compose, zoom_layout, expandSpec_*) + differential correspondence with zoomify_cooler over target sets, one to three bases and CLI spellings",
+            "Lean 4 theorems (multseq_sorted_once, multseq_sound, multseq_refuses_iff(_bases), chain_to_base, zoom_level_eq_direct for ANY valid multiplier sequence via C08.coarsen_compose, zoom_layout, zoomify_file(_prior), expandSpec_*, expandSpec_perm, legacy_level_eq_direct, quadtreeDepth_spec) + differential correspondence with zoomify_cooler over target sets, bin sizes of any magnitude, one to three bases, CLI spellings, repeated runs on one output path and the legacy quad-tree producer",
             "Proof: the multiplier sequence is the strictly sorted union, is refused exactly when some requested resolution is not a multiple of any base, every predecessor chain ends at a base with the product of multipliers r/base, hence every derived level equals direct coarsening of a base by r/base whatever chain was used; bases are copies; the listing is exactly /resolutions/<r>. Real zoomify output is compared level by level (base levels byte-for-byte with their sources).",
             "Trusted: Lean kernel; model tied by correspondence; is_multires_file by correspondence only; resolutions positive integers."),
     "C16": ("DESIGN.md §5 C16",
